@@ -71,6 +71,7 @@ func c09RealTrial(c *core.Ctx, idx int, self, state string, withStop bool, desc 
 	var agentCmd *exec.Cmd
 	var agentGrp *pgrp.Handle
 	agentDone := make(chan struct{})
+	launched := time.Now() // the run's recorded start time lies between launched and started
 	if state != "never-run" {
 		agentCmd = exec.Command(h.bin, "start", loc)
 		agentCmd.Env = h.env()
@@ -173,7 +174,13 @@ func c09RealTrial(c *core.Ctx, idx int, self, state string, withStop bool, desc 
 				}
 			}
 		case state == "finished-this-minute":
-			if time.Now().Truncate(time.Minute).Equal(thisMinute) {
+			// "started in this minute" is known only if the whole launch lies in it: `started` is
+			// taken once the step was seen running, up to a second after the agent recorded its
+			// start time; a run launched at :59.6 has started in the minute before, and the daemon
+			// is right to start the DAG for this one (DESIGN 12, C09 thorough)
+			if !launched.Truncate(time.Minute).Equal(thisMinute) {
+				c.Count("same_minute_trials_launched_across_a_minute_boundary_not_judged", 1)
+			} else if time.Now().Truncate(time.Minute).Equal(thisMinute) {
 				s.VerifTick(thisMinute)
 				if n := settle(false); n != 0 {
 					c.Violate(idx, "real-second-start-same-minute|"+key, fmt.Sprintf("the DAG's latest run started in this minute, yet the daemon spawned %d more start(s) for the same minute", n), desc)
